@@ -30,7 +30,7 @@ BUDGET = {'quick': {'C13': (40, 25), 'C03': (64, 25), 'C02': (40, 20)},
           'thorough': {'C13': (200, 40), 'C03': (240, 30), 'C02': (160, 25)}}
 P_CAND = {'C13': 0.0, 'C03': 1.0, 'C02': 1.0}
 SVC = {'x-roles': 'admin,service'}
-KNOWN_CLASSES = ('in-tree-pins-anchor', 'nested-sharing-keyerror', 'anchor-dedup')
+KNOWN_CLASSES = ('in-tree-pins-anchor', 'forbidden-aggs-anchor-root', 'nested-sharing-keyerror', 'anchor-dedup')
 
 
 def known(pid, pattern):
